@@ -36,6 +36,11 @@
 #include <unistd.h>
 #include <stdarg.h>
 
+#ifdef C08_USE_VSCHED
+#include "vsched.h"
+// the perturbation layer is not linked in this variant (vsched.c owns the pthread wrappers)
+volatile int c08_pert_mode; volatile uint64_t c08_pert_seed; volatile unsigned c08_pert_usec;
+#endif
 #ifdef C08_EVENTS
 #include "c08_events.h"
 #endif
@@ -633,6 +638,7 @@ static lzma_ret init_mt(lzma_stream *s, const stream_cfg *c, unsigned threads, u
 // watchdog
 // ---------------------------------------------------------------------------------------------------------------
 static volatile time_t g_deadline = 0;
+static unsigned long long g_steps, g_switches, g_sto, g_spur, g_hash;
 static char g_cur_id[64] = "-";
 int __real_pthread_create(pthread_t *, const pthread_attr_t *, void *(*)(void *), void *);
 
@@ -663,9 +669,11 @@ int main(void)
 		if (strcmp(l.tok[0], "scn") != 0 || l.ntok < 3) { printf("bad-op\n"); continue; }
 		snprintf(g_cur_id, sizeof g_cur_id, "%s", l.tok[1]);
 		stream_cfg *cfg = calloc(MAXSTREAM, sizeof *cfg); int ns = 0, bad = 0, dump = 0, pmode = 0; unsigned pusec = 300; uint64_t pseed = 1; long wd = 180;
+		unsigned long long sc[8] = { 0, 1, 0, 3, 2000, 32, 4, 0 }; int use_sched = 0;   // mode seed sticky pct_depth pct_steps p_timeout p_spurious
 		for (int i = 2; i < l.ntok; ++i) {
 			if (!strncmp(l.tok[i], "S:", 2)) { if (ns >= MAXSTREAM || parse_stream(l.tok[i], &cfg[ns++]) != 0) bad = 1; }
 			else if (!strncmp(l.tok[i], "pert=", 5)) { unsigned long long a = 0, b = 1, c = 300; sscanf(l.tok[i] + 5, "%llu:%llu:%llu", &a, &b, &c); pmode = (int)a; pseed = b; pusec = (unsigned)c; }
+			else if (!strncmp(l.tok[i], "sched=", 6)) { use_sched = 1; sscanf(l.tok[i] + 6, "%llu:%llu:%llu:%llu:%llu:%llu:%llu", &sc[0], &sc[1], &sc[2], &sc[3], &sc[4], &sc[5], &sc[6]); }
 			else if (!strncmp(l.tok[i], "dump=", 5)) dump = atoi(l.tok[i] + 5);
 			else if (!strncmp(l.tok[i], "wd=", 3)) wd = atol(l.tok[i] + 3);
 			else bad = 1;
@@ -696,6 +704,15 @@ int main(void)
 		if (!g_failed) {
 			lzma_stream ts = LZMA_STREAM_INIT;
 			c08_pert_seed = pseed; c08_pert_usec = pusec; c08_pert_mode = pmode;
+#ifdef C08_USE_VSCHED
+			sched_config scfg; memset(&scfg, 0, sizeof scfg);
+			scfg.mode = use_sched ? (sched_mode)sc[0] : SCHED_REAL; scfg.seed = sc[1]; scfg.sticky = (unsigned)sc[2]; scfg.pct_depth = (unsigned)sc[3];
+			scfg.pct_steps = sc[4]; scfg.p_timeout = (unsigned)sc[5]; scfg.p_spurious = (unsigned)sc[6]; scfg.max_steps = 20000000; scfg.jitter = 0;
+			scfg.log_path = getenv("C08_SCHED_LOG");
+			sched_begin(&scfg);
+#else
+			(void)use_sched; (void)sc;
+#endif
 #ifdef C08_EVENTS
 			c08_ev_begin();
 #endif
@@ -719,6 +736,10 @@ int main(void)
 				for (size_t j = 0; j < ref[i].nblk; ++j) tot_fb += ref[i].blk[j].fallback;
 			}
 			lzma_end(&ts);
+#ifdef C08_USE_VSCHED
+			sched_stats sst; sched_end(&sst);
+			g_steps = sst.steps; g_switches = sst.switches; g_sto = sst.timeouts; g_spur = sst.spurious; g_hash = sst.trace_hash;
+#endif
 #ifdef C08_EVENTS
 			c08_ev_end();
 #endif
@@ -729,6 +750,9 @@ int main(void)
 		else {
 			printf("ok id=%s streams=%d aborted=%lu blocks=%lu fallback=%lu calls=%lu noprog=%lu buferr=%lu flush=%lu barrier=%lu samples=%lu upd_ok=%lu upd_rej=%lu in=%lu out=%lu",
 				l.tok[1], ns, aborted, tot_blocks, tot_fb, tot_calls, tot_noprog, buferr, tot_fl, tot_bar, tot_samples, upd_ok, upd_rej, tot_in, tot_out);
+#ifdef C08_USE_VSCHED
+			printf(" steps=%llu switches=%llu sched_timeouts=%llu spurious=%llu hash=%016llx", g_steps, g_switches, g_sto, g_spur, g_hash);
+#endif
 			if (dump) for (int i = 0; i < ns; ++i) if (res[i].completed) { printf(" din%d=", i); hp_put_hex(input[i], cfg[i].n); printf(" dout%d=", i); hp_put_hex(res[i].out.p, res[i].out.n); }
 #ifdef C08_EVENTS
 			c08_ev_print();
